@@ -6,3 +6,4 @@ import GscribModel.Props.C05
 import GscribModel.Props.C06
 import GscribModel.Props.C03
 import GscribModel.Props.C01
+import GscribModel.Props.C07
